@@ -56,6 +56,8 @@ package builder
 //@   guard-call ints: "AddInt" nf(arg(0)) < 12 ==> ((nf(arg(0)) == 0 && arg(1) == sleepOf(b)) || (nf(arg(0)) == 1 && arg(1) == jitterOf(b) && 0 <= arg(1) && arg(1) <= 100) || (nf(arg(0)) == 2 && arg(1) == allocOf(injStr(b, "Alloc"))) || (nf(arg(0)) == 3 && arg(1) == allocOf(injStr(b, "Execute"))) || (nf(arg(0)) == 6 && arg(1) == techOf(cfgStr(b, "Sleep Technique"))) || (nf(arg(0)) == 7 && arg(1) == gadgetOf(techOf(cfgStr(b, "Sleep Technique")), cfgStr(b, "Sleep Jmp Gadget"))) || (nf(arg(0)) == 8 && arg(1) == ite(techOf(cfgStr(b, "Sleep Technique")) != SLEEPOBF_NO_OBF && cfgBool(b, "Stack Duplication"), win32.TRUE, win32.FALSE)) || (nf(arg(0)) == 9 && arg(1) == proxyOf(cfgStr(b, "Proxy Loading"))) || (nf(arg(0)) == 10 && arg(1) == ite(cfgBool(b, "Indirect Syscall"), win32.TRUE, win32.FALSE)) || (nf(arg(0)) == 11 && arg(1) == amsiOf(cfgStr(b, "Amsi/Etw Patch"))))
 // every text field of the block is a wide string (the Demon reads them with its wide-string reader);
 // no other kind of field is ever packed
+// the Demon only speaks POST: a listener that asks for GET (in any letter case) never gets a payload
+//@   guard-call method: "AddWString" (isHttp(b) && nf(arg(0)) == 14) ==> ufs_lower(lh(b).Config.Methode) != "get"
 //@   guard-call wideonly: "AddString|AddBytes|AddUInt32|AddOwnSizeFirst" false
 //@   guard-call strs: "AddWString" nf(arg(0)) < 12 ==> ((nf(arg(0)) == 4 && arg(1) == injStr(b, "Spawn64")) || (nf(arg(0)) == 5 && arg(1) == injStr(b, "Spawn32")))
 //@   guard-call wide: "AddInt64" (isHttp(b) ==> (nf(arg(0)) == 12 && arg(1) == lh(b).Config.KillDate)) && (isSmb(b) ==> (nf(arg(0)) == 13 && arg(1) == ls(b).Config.KillDate)) && (isHttp(b) || isSmb(b))
